@@ -176,6 +176,26 @@ class Loader:
         self.cache = {}
         self.symbolic = symbolic
         self.const_overrides = const_overrides or {}
+        self.origin = {}
+
+    def add_stub(self, spec, f):
+        """install a contract stub, also in module namespaces that were already built"""
+        mod, qual = spec.split(":")
+        real = importlib.import_module(mod)
+        o = real
+        for part in qual.lstrip("@").split("."):
+            if not hasattr(o, part):
+                raise KeyError(f"stub target {spec} does not exist in the repository")
+            o = getattr(o, part)
+        self.stubs[spec] = f
+        if qual.startswith("@"):
+            g = self.cache.get(("globals", mod))
+            if g is not None:
+                g[qual[1:]] = f
+            return
+        for g, name in self.origin.get(spec, []):
+            g[name] = f
+        self.cache.pop(spec, None)
 
     def fn(self, spec):
         if spec in self.cache:
@@ -217,6 +237,8 @@ class Loader:
             spec = None
             if isinstance(v, types.FunctionType) and getattr(v, "__module__", "").startswith("resonaate"):
                 spec = f"{v.__module__}:{v.__qualname__}"
+            if spec is not None:
+                self.origin.setdefault(spec, []).append((g, name))
             if spec is not None and spec in self.stubs:
                 g[name] = self.stubs[spec]
                 continue
